@@ -993,6 +993,16 @@ func cmdMalformed(args []string) {
 	for _, b := range directedBases() {
 		fieldMutations(s, b, 1<<30, rnd)
 	}
+	// a type descriptor nested very deeply and cut off before its innermost type (a truncation of a valid encoding):
+	// list<list<...: 2 bytes per level, no count or length field involved
+	for _, depth := range []int{1000} {
+		body := []byte{0, 0, 0, 2, 0, 0, 0, 1, 0, 0, 0, 1, 0, 2, 'k', 's', 0, 1, 't', 0, 1, 'c'}
+		for i := 0; i < depth; i++ {
+			body = append(body, 0x00, 0x20)
+		}
+		in := append([]byte{0x84, 0, 0, 1, 8, byte(len(body) >> 24), byte(len(body) >> 16), byte(len(body) >> 8), byte(len(body))}, body...)
+		s.add([]string{"frame"}, nil, v4, "none", in, fmt.Sprintf("directed: RESULT Rows v4, column type list< nested %d deep and truncated", depth))
+	}
 	order := rnd.Perm(len(bases))
 	if thorough {
 		for _, b := range bases {
